@@ -144,3 +144,36 @@ fn f64_parts(x: f64) -> Value {
         b & 0xffff
     ])
 }
+
+/// Millions of random pairs against the machine's own bit operations (bridge:
+/// the TLC-validated subset ties the machine operations to Bits.tla).
+pub fn bits_bridge(req: &Value) -> Value {
+    let n = req["n"].as_u64().unwrap_or(1000);
+    let mut state = req["seed"].as_u64().unwrap_or(1) | 1;
+    let mut next = || {
+        // xorshift64*
+        state ^= state >> 12;
+        state ^= state << 25;
+        state ^= state >> 27;
+        state.wrapping_mul(0x2545F4914F6CDD1D)
+    };
+    let mut bad = vec![];
+    let mut count = 0u64;
+    for _ in 0..n {
+        let r = next();
+        let a = (r & 0xffff) as u16 as i16 as i32;
+        let b = ((r >> 16) & 0xffff) as u16 as i16 as i32;
+        let and_ok = qb_and(a, b) == ((a as i16) & (b as i16)) as i32;
+        let or_ok = qb_or(a, b) == ((a as i16) | (b as i16)) as i32;
+        let rt = bytes_to_i32(i32_to_bytes(a)) == a;
+        let x = f64::from_bits(next());
+        let f_ok = !x.is_finite() || bytes_to_f64(&f64_to_bytes(x)).to_bits() == x.to_bits();
+        let le_ok = f64_to_bytes(x) == x.to_le_bytes();
+        count += 1;
+        if !(and_ok && or_ok && rt && f_ok && le_ok) && bad.len() < 5 {
+            bad.push(json!({"a": a, "b": b, "xbits": format!("{:016x}", x.to_bits()),
+                            "and_ok": and_ok, "or_ok": or_ok, "roundtrip_ok": rt, "f64_ok": f_ok, "le_ok": le_ok}));
+        }
+    }
+    json!({"count": count, "bad": bad})
+}
